@@ -4,8 +4,9 @@
   What a theorem can carry here (DESIGN.md §6 C19, "partial by nature"):
   1. facts over the REGENERATED inventories of /repo's source: the library has no package-level
      mutable state that statement execution writes — every write to a package-level variable sits
-     in a registration function or in `init`, and the set of package-level variables is the
-     pinned one (a new global, e.g. a cache, breaks `package_vars_pinned`);
+     in a registration function or in `init` (the LIST of package-level variables is a drift
+     detector, Properties/C19Inventory.lean: a new global, e.g. a cache or a pool, makes the check
+     run its enlarged race search);
   2. `noninterference` (Proofs/Noninterference.lean): in an interleaving semantics of N
      machines with private state, read-only access to the library's tables and atomic storage
      operations, every interleaving gives each statement the result of running it alone when
@@ -26,13 +27,6 @@ def registrationFns : List String := ["AddScalarFunction", "AddAggrFunction", "i
 /-- Every write to (or address-of) a package-level variable, anywhere in the library, is in a
     registration function or `init` — none is on the parse/plan/execute path. -/
 theorem no_shared_writes : ∀ w ∈ globalWrites, w.1 ∈ registrationFns := by decide
-
-/-- The package-level variables are exactly these (tables, two configuration knobs, the default
-    aggregation key): no cache, pool or counter has been added. -/
-theorem package_vars_pinned :
-    packageVars.map (·.1) = ["DefaultErrorPadding", "EnableFieldCache", "KVKeywordToString",
-      "OperatorToString", "PlanBatchSize", "StringToOperator", "TokenTypeToString", "aggrFuncMap",
-      "defaultAggrKey", "funcMap"] := by decide
 
 /-- The only package-level variables that are ever written are the two function tables (by the
     registration API, before queries run) and `EnableFieldCache` (by `init`). -/
